@@ -51,7 +51,19 @@ def _chain_from_iterable(x):
 
 
 _PURE_BUILTINS = {"enumerate": lambda *a: list(enumerate(*a)), "zip": lambda *a: list(zip(*a)), "range": lambda *a: list(range(*a)), "sorted": sorted, "reversed": lambda x: list(reversed(x)),
-                  "sum": sum, "any": any, "all": all, "bin": bin, "hex": hex, "oct": oct, "chr": chr, "ord": ord, "divmod": divmod, "pow": pow, "int": int, "float": float, "str": str, "len": len, "bool": bool, "min": min, "max": max, "abs": abs, "round": round, "list": list, "tuple": tuple, "bytes": bytes}
+                  "sum": sum, "any": any, "all": all, "bin": bin, "hex": hex, "oct": oct, "chr": chr, "ord": ord, "divmod": divmod, "pow": pow, "int": int, "float": float, "str": str, "len": len, "bool": bool, "min": min, "max": max, "abs": abs, "round": round, "list": list, "tuple": tuple, "bytes": bytes, "set": set, "dict": dict}
+
+
+def _has_unknown(v, depth=0):
+    if v is UNKNOWN:
+        return True
+    if depth > 4:
+        return False
+    if isinstance(v, (tuple, list, set, frozenset)):
+        return any(_has_unknown(x, depth + 1) for x in v)
+    if isinstance(v, dict):
+        return any(_has_unknown(x, depth + 1) for x in v.values())
+    return False
 
 
 class Bound:
@@ -141,6 +153,8 @@ class Interp:
             # evaluated here once (side effects such as stream reads must not be repeated) unless the folder decides the call
             if not self._mentions_obj(e, env):
                 v0 = self.ctx.folder.eval(e, self.module, env=env)
+                if isinstance(v0, frozenset) and isinstance(e.func, ast.Name) and e.func.id == "set":
+                    return set(v0)  # a fresh mutable set (the folder's constants are immutable)
                 if v0 is not UNKNOWN:
                     return v0
             mine = []
@@ -173,7 +187,7 @@ class Interp:
             v = UNKNOWN
         else:
             v = self.ctx.folder.eval(e, self.module, env=env)
-        if v is not UNKNOWN:
+        if v is not UNKNOWN and not (isinstance(e, (ast.Tuple, ast.List, ast.Dict, ast.Set)) and _has_unknown(v)):
             return v
         if isinstance(e, ast.Compare) and len(e.ops) == 1:
             a, b = self.ev(e.left, env, depth), self.ev(e.comparators[0], env, depth)
@@ -326,7 +340,7 @@ class Interp:
                     return any(isinstance(v_, kinds[n_]) for n_ in names)
         if isinstance(e, ast.Call) and isinstance(e.func, ast.Name) and e.func.id in _PURE_BUILTINS and e.func.id not in env and not e.keywords:
             args = [self.ev(a, env, depth) for a in e.args]
-            if all(isinstance(a, (int, float, str, bytes, bytearray, bool, list, tuple, dict, range, type(None))) for a in args):
+            if all(isinstance(a, (int, float, str, bytes, bytearray, bool, list, tuple, dict, range, set, frozenset, type(None))) for a in args):
                 return _PURE_BUILTINS[e.func.id](*args)
         if isinstance(e, ast.Call) and ast.unparse(e.func) in ("pack", "unpack", "unpack_from", "calcsize", "struct.pack", "struct.unpack", "struct.unpack_from", "struct.calcsize") and not e.keywords:
             import struct as _struct
